@@ -161,9 +161,7 @@ def L17_acquireConnectionSlot : List String := [
   "end"
 ]
 def L17_releaseConnectionSlot : List String := [
-  "if current := h.activeConnCount.Load(); current > 0",
-  "h.activeConnCount.Store(current - 1)",
-  "end"
+  "h.activeConnCount.Add(-1)"
 ]
 def L17_connectionLimit : List String := [
   "maxConn := h.config.MaxConnections",
